@@ -428,6 +428,243 @@ proof fn cv_chord(x1: F2, y1: F2, x2: F2, y2: F2, W: F2, x3: F2, y3: F2, z3: F2)
 }}
 """)
 
+    # ---------------------------------------------------------------- point_double against the tangent law
+    P = PROGS["dbl"]; allv = ", ".join(P["inputs"] + P["vals"]); sig = ", ".join("%s: F2" % v for v in P["inputs"] + P["vals"])
+    Z = V("Z")
+    rn = dict(xa="xa", ya="ya", z="Z")
+    Wd = DBL["W"]
+    lemma(f"""
+// TwistPoint::point_double on a finite Jacobian point is the tangent law (a point of order two doubles to infinity: z3 == 0)
+proof fn cv_dbl({sig})
+    requires m2_ok(X), m2_ok(Y), m2_ok(Z), Z != m2_zero(), dbl_rel({allv})
+    ensures m2_ok(x3), m2_ok(y3), m2_ok(z3), jac2(x3, y3, z3) == g2_add(jac2(X, Y, Z), jac2(X, Y, Z))
+{{
+    t2_zero(Z);
+    let zi = m2_inv(Z); t2_inv(Z);
+    let xa = m2_mul(m2_mul(X, zi), zi); let ya = m2_mul(m2_mul(m2_mul(Y, zi), zi), zi);
+    cv_param(X, Y, Z, zi, xa, ya);
+    dbl_chain({allv}, {R(DBL["par"]["Xp"], **rn)}, {R(DBL["par"]["Yp"], **rn)}, Z);
+    qr_dF_m(xa, Z); qr_dF_s(xa, ya, Z); qr_dF_d(ya, Z); qr_dF_z(ya, Z);
+    let W = {R(Wd, **rn)};
+    qr_dG_x({q(TAN["T"])}, {q(TAN["S4"])}, W);
+    qr_dG_y({q(TAN["T"])}, {q(TAN["S4"])}, {q(TAN["x3n"])}, {q(TAN["D8"])}, W);
+    t2_nz_mul(Z, Z); t2_nz_mul(q_mul(Z, Z), q_mul(Z, Z));
+    if ya == m2_zero() {{
+        t2_zero(ya); t2_dbl_z(ya); t2_lin1({q(TAN["Y2"])}, W); t2_zero(z3);
+        let y2r = m2_add(ya, ya); t2_ca(y2r, ya, ya, ya, ya); t2_zero(y2r);
+    }} else {{
+        cv_tangent(xa, ya, W, x3, y3, z3);
+    }}
+}}
+""")
+    # ---------------------------------------------------------------- helpers
+    lemma(f"""
+// ra == a k, rb == b k with k != 0: the reduced values are equal exactly when a and b are
+proof fn cv_scaled_eq(a: F2, b: F2, k: F2, ra: F2, rb: F2)
+    requires m2_ok(a), m2_ok(b), m2_ok(ra), m2_ok(rb), !qz(k), qc(ra, q_mul(a, k)), qc(rb, q_mul(b, k))
+    ensures (ra == rb) == (a == b)
+{{
+    if ra == rb {{
+        t2_diff(q_mul(a, k), q_mul(b, k));
+        qr_dist(a, b, k);
+        t2_diff(a, b);
+        if !qz(q_sub(a, b)) {{ t2_nz_mul(q_sub(a, b), k); }}
+        t2_ok_eq(a, b);
+    }}
+    if a == b {{ t2_ok_eq(ra, rb); }}
+}}
+// r == (a - b) k with k != 0: r vanishes exactly when a == b;   r == (a + b) k: exactly when a + b == 0
+proof fn cv_scaled_diff(a: F2, b: F2, k: F2, r: F2)
+    requires m2_ok(a), m2_ok(b), m2_ok(r), !qz(k)
+    ensures qc(r, q_mul(q_sub(a, b), k)) ==> (r == m2_zero()) == (a == b), qc(r, q_mul(q_add(a, b), k)) ==> (r == m2_zero()) == (m2_add(a, b) == m2_zero())
+{{
+    t2_zero(r);
+    if qc(r, q_mul(q_sub(a, b), k)) {{
+        t2_diff(a, b);
+        if qz(q_sub(a, b)) {{ t2_lin1(q_sub(a, b), k); t2_ok_eq(a, b); }} else {{ t2_nz_mul(q_sub(a, b), k); }}
+    }}
+    if qc(r, q_mul(q_add(a, b), k)) {{
+        let ys = m2_add(a, b); t2_ca(ys, a, b, a, b); t2_zero(ys);
+        if qz(q_add(a, b)) {{ t2_lin1(q_add(a, b), k); }} else {{ t2_nz_mul(q_add(a, b), k); }}
+    }}
+}}
+// two points of the curve with the same x are equal or opposite
+proof fn cv_same_x(x: F2, y1: F2, y2: F2)
+    requires on_curve2(Pt2::Aff {{ x: x, y: y1 }}), on_curve2(Pt2::Aff {{ x: x, y: y2 }}), y1 != y2
+    ensures m2_add(y1, y2) == m2_zero()
+{{
+    let s1 = m2_mul(y1, y1); let s2 = m2_mul(y2, y2);
+    t2_cm(s1, y1, y1, y1, y1); t2_cm(s2, y2, y2, y2, y2);
+    t2_diff(q_mul(y1, y1), q_mul(y2, y2));
+    qr_sqdiff(y1, y2);
+    t2_diff(y1, y2);
+    if qc(y1, y2) {{ t2_ok_eq(y1, y2); }}
+    if !qz(q_add(y1, y2)) {{ t2_nz_mul(q_sub(y1, y2), q_add(y1, y2)); }}
+    let ys = m2_add(y1, y2); t2_ca(ys, y1, y2, y1, y2); t2_zero(ys);
+}}
+// (X, -Y, Z) denotes the opposite point
+proof fn cv_neg(X: F2, Y: F2, Z: F2, ny: F2)
+    requires m2_ok(X), m2_ok(Y), m2_ok(Z), ny == m2_neg(Y)
+    ensures m2_ok(ny), jac2(X, ny, Z) == g2_neg(jac2(X, Y, Z)), on_curve2(jac2(X, Y, Z)) ==> on_curve2(jac2(X, ny, Z))
+{{
+    t2_cn(ny, Y, Y);
+    if Z != m2_zero() {{
+        let zi = m2_inv(Z);
+        let b1 = m2_mul(Y, zi); t2_cm(b1, Y, zi, Y, zi); let b2 = m2_mul(b1, zi); t2_cm(b2, b1, zi, {q(y*zi).replace("y", "Y")}, zi);
+        let ya = m2_mul(b2, zi); t2_cm(ya, b2, zi, q_mul(q_mul(Y, zi), zi), zi);
+        let c1 = m2_mul(ny, zi); t2_cm(c1, ny, zi, q_sub(q_c(0), Y), zi); let c2 = m2_mul(c1, zi); t2_cm(c2, c1, zi, q_mul(q_sub(q_c(0), Y), zi), zi);
+        let na = m2_mul(c2, zi); t2_cm(na, c2, zi, q_mul(q_mul(q_sub(q_c(0), Y), zi), zi), zi);
+        qr_neg3(Y, zi);
+        let nb = m2_neg(ya); t2_cn(nb, ya, ya);
+        t2_cong_add(q_c(0), q_c(0), ya, q_mul(q_mul(q_mul(Y, zi), zi), zi));
+        t2_ok_eq(na, nb);
+        // the square of the y coordinate is unchanged
+        let sq = m2_mul(ya, ya); t2_cm(sq, ya, ya, ya, ya);
+        let nsq = m2_mul(nb, nb); t2_cm(nsq, nb, nb, q_sub(q_c(0), ya), q_sub(q_c(0), ya));
+        qr_negsq(ya);
+        t2_ok_eq(sq, nsq);
+        let xz = m2_mul(X, zi); t2_cm(xz, X, zi, X, zi); let xq = m2_mul(xz, zi); t2_cm(xq, xz, zi, q_mul(X, zi), zi);
+    }}
+}}
+""")
+    # ---------------------------------------------------------------- twist_point_add_full
+    P1 = PROGS["af1"]; P2 = PROGS["af2"]
+    sig1 = ", ".join("%s: F2" % v for v in P1["inputs"] + P1["vals"]); all1 = ", ".join(P1["inputs"] + P1["vals"])
+    sig2 = ", ".join("%s: F2" % v for v in P2["vals"]); all2 = ", ".join(P2["inputs"] + P2["vals"])
+    aff = """let zi1 = m2_inv(Z1); let x1 = m2_mul(m2_mul(X1, zi1), zi1); let y1 = m2_mul(m2_mul(m2_mul(Y1, zi1), zi1), zi1);
+        let zi2 = m2_inv(Z2); let x2 = m2_mul(m2_mul(X2, zi2), zi2); let y2 = m2_mul(m2_mul(m2_mul(Y2, zi2), zi2), zi2);
+        let t = q_mul(Z1, Z2); let tq = q_mul(t, t); let wq = q_mul(tq, t);"""
+    rn2 = dict(x1="x1", y1="y1", x2="x2", y2="y2", z1="Z1", z2="Z2")
+    par2 = AF["par2"]
+    tq, wq, dxq, dyq = V("tq", "wq", "dxq", "dyq")
+    lemma(f"""
+// twist_point_add_full, both operands finite: the cross-multiplied coordinates in terms of the affine coordinates and t = z1 z2; the case distinction
+proof fn cv_af1({sig1})
+    requires m2_ok(X1), m2_ok(Y1), m2_ok(Z1), m2_ok(X2), m2_ok(Y2), m2_ok(Z2), Z1 != m2_zero(), Z2 != m2_zero(), af1_rel({all1})
+    ensures ({{
+        {aff}
+        m2_ok(x1) && m2_ok(y1) && m2_ok(x2) && m2_ok(y2) && jac2(X1, Y1, Z1) == (Pt2::Aff {{ x: x1, y: y1 }}) && jac2(X2, Y2, Z2) == (Pt2::Aff {{ x: x2, y: y2 }})
+        && !qz(t) && !qz(tq) && !qz(wq)
+        && qc(u1, {q(x1*tq)}) && qc(u2, {q(x2*tq)}) && qc(s1, {q(y1*wq)}) && qc(s2, {q(y2*wq)}) && qc(t5, {q(x2*tq + x1*tq)})
+        && qc(h, {q((x2 - x1)*tq)}) && qc(r, {q((y2 - y1)*wq)})
+        && m2_ok(u1) && m2_ok(u2) && m2_ok(s1) && m2_ok(s2) && m2_ok(t5) && m2_ok(h) && m2_ok(r) && m2_ok(t6)
+        && (h == m2_zero()) == (x1 == x2) && (r == m2_zero()) == (y1 == y2) && (t6 == m2_zero()) == (m2_add(y1, y2) == m2_zero()) }})
+{{
+    {aff}
+    t2_zero(Z1); t2_zero(Z2); t2_inv(Z1); t2_inv(Z2);
+    cv_param(X1, Y1, Z1, zi1, x1, y1); cv_param(X2, Y2, Z2, zi2, x2, y2);
+    af1_chain({all1}, {R(par2["X1p"], **rn2)}, {R(par2["Y1p"], **rn2)}, Z1, {R(par2["X2p"], **rn2)}, {R(par2["Y2p"], **rn2)}, Z2);
+    qr_af_u1(x1, Z1, Z2); qr_af_u2(x2, Z1, Z2); qr_af_s1(y1, Z1, Z2); qr_af_s2(y2, Z1, Z2);
+    qr_dist(x2, x1, tq); qr_dist(y2, y1, wq); qr_dista(y2, y1, wq);
+    t2_nz_mul(Z1, Z2); t2_nz_mul(t, t); t2_nz_mul(tq, t);
+    cv_scaled_diff(x2, x1, tq, h); cv_scaled_diff(y2, y1, wq, r); cv_scaled_diff(y2, y1, wq, t6);
+}}
+// the generic branch (the affine x coordinates differ) is the chord law
+proof fn cv_af2({sig1}, {sig2})
+    requires m2_ok(X1), m2_ok(Y1), m2_ok(Z1), m2_ok(X2), m2_ok(Y2), m2_ok(Z2), Z1 != m2_zero(), Z2 != m2_zero(), af1_rel({all1}), af2_rel({all2}),
+        h != m2_zero()
+    ensures m2_ok(x3), m2_ok(y3), m2_ok(z3), z3 != m2_zero(), jac2(x3, y3, z3) == g2_add(jac2(X1, Y1, Z1), jac2(X2, Y2, Z2))
+{{
+    {aff}
+    cv_af1({all1});
+    let dxq = q_sub(x2, x1); let dyq = q_sub(y2, y1);
+    af2_chain({all2}, {q(x1*tq)}, {q(y1*wq)}, {q(x2*tq + x1*tq)}, {q(dxq*tq)}, {q(dyq*wq)}, Z1, Z2);
+    qr_af_z(dxq, Z1, Z2);
+    qr_af_x(x1, x2, dyq, t);
+    qr_af_y(x1, y1, dxq, dyq, {R(CH["x3n"])}, t);
+    cv_chord(x1, y1, x2, y2, wq, x3, y3, z3);
+}}
+// opposite points (same x, different y): the generic formulas give z3 == 0, and the sum is the point at infinity
+proof fn cv_af_opp({sig1}, t7a: F2, z3: F2)
+    requires m2_ok(X1), m2_ok(Y1), m2_ok(Z1), m2_ok(X2), m2_ok(Y2), m2_ok(Z2), Z1 != m2_zero(), Z2 != m2_zero(), af1_rel({all1}),
+        on_curve2(jac2(X1, Y1, Z1)), on_curve2(jac2(X2, Y2, Z2)), h == m2_zero(), r != m2_zero(), t7a == m2_mul(h, Z1), z3 == m2_mul(t7a, Z2)
+    ensures z3 == m2_zero(), g2_add(jac2(X1, Y1, Z1), jac2(X2, Y2, Z2)) == Pt2::Inf
+{{
+    {aff}
+    cv_af1({all1});
+    cv_same_x(x1, y1, y2);
+    f2_pos(); f2_small(0);
+    assert(0 * Z1.c0 - 2 * (0 * Z1.c1) == 0 && 0 * Z1.c1 + 0 * Z1.c0 == 0);
+    assert(0 * Z2.c0 - 2 * (0 * Z2.c1) == 0 && 0 * Z2.c1 + 0 * Z2.c0 == 0);
+}}
+// both differences vanish: the operands denote the same point;  r == 0 and t6 == 0 cannot happen on the curve (it has no point with y == 0)
+proof fn cv_af_same({sig1})
+    requires m2_ok(X1), m2_ok(Y1), m2_ok(Z1), m2_ok(X2), m2_ok(Y2), m2_ok(Z2), Z1 != m2_zero(), Z2 != m2_zero(), af1_rel({all1}),
+        on_curve2(jac2(X1, Y1, Z1)), on_curve2(jac2(X2, Y2, Z2))
+    ensures h == m2_zero() && r == m2_zero() ==> jac2(X1, Y1, Z1) == jac2(X2, Y2, Z2), !(r == m2_zero() && t6 == m2_zero())
+{{
+    {aff}
+    cv_af1({all1});
+    if r == m2_zero() && t6 == m2_zero() {{
+        g2_y_nz(x1, y1);
+        t2_zero(y1); t2_dbl_z(y1);
+        let ys = m2_add(y1, y1); t2_ca(ys, y1, y1, y1, y1); t2_zero(ys);
+    }}
+}}
+""")
+    # ---------------------------------------------------------------- TwistPoint::point_add (mixed)
+    M1 = PROGS["ma1"]; M2 = PROGS["ma2"]
+    sgm1 = ", ".join("%s: F2" % v for v in M1["inputs"] + M1["vals"]); allm1 = ", ".join(M1["inputs"] + M1["vals"])
+    sgm2 = ", ".join("%s: F2" % v for v in M2["vals"]); allm2 = ", ".join(M2["inputs"] + M2["vals"])
+    affm = """let zi1 = m2_inv(Z1); let x1 = m2_mul(m2_mul(X1, zi1), zi1); let y1 = m2_mul(m2_mul(m2_mul(Y1, zi1), zi1), zi1);
+        let zq = q_mul(Z1, Z1); let wq = q_mul(zq, Z1);"""
+    rnm = dict(x1="x1", y1="y1", x2="X2", y2="Y2", z="Z1")
+    parm = MA["parm"]
+    zq = V("zq")
+    x2m, y2m = V("X2", "Y2")
+    lemma(f"""
+// TwistPoint::point_add (the second operand is affine: rhs.z == 1), both operands finite: the differences and the case distinction
+proof fn cv_ma1({sgm1})
+    requires m2_ok(X1), m2_ok(Y1), m2_ok(Z1), m2_ok(X2), m2_ok(Y2), Z1 != m2_zero(), ma1_rel({allm1})
+    ensures ({{
+        {affm}
+        m2_ok(x1) && m2_ok(y1) && jac2(X1, Y1, Z1) == (Pt2::Aff {{ x: x1, y: y1 }}) && !qz(zq) && !qz(wq)
+        && qc(h, {q((x2m - x1)*zq)}) && qc(r, {q((y2m - y1)*wq)}) && m2_ok(h) && m2_ok(r)
+        && (h == m2_zero()) == (x1 == X2) && (r == m2_zero()) == (y1 == Y2) }})
+{{
+    {affm}
+    t2_zero(Z1); t2_inv(Z1);
+    cv_param(X1, Y1, Z1, zi1, x1, y1);
+    ma1_chain({allm1}, {R(parm["X1p"], **rnm)}, {R(parm["Y1p"], **rnm)}, Z1, X2, Y2);
+    qr_ma_h(x1, X2, Z1); qr_ma_r(y1, Y2, Z1);
+    t2_nz_mul(Z1, Z1); t2_nz_mul(zq, Z1);
+    cv_scaled_diff(X2, x1, zq, h); cv_scaled_diff(Y2, y1, wq, r);
+}}
+proof fn cv_ma2({sgm1}, {sgm2})
+    requires m2_ok(X1), m2_ok(Y1), m2_ok(Z1), m2_ok(X2), m2_ok(Y2), Z1 != m2_zero(), ma1_rel({allm1}), ma2_rel({allm2}), h != m2_zero()
+    ensures m2_ok(x3), m2_ok(y3), m2_ok(z3), z3 != m2_zero(), jac2(x3, y3, z3) == g2_add(jac2(X1, Y1, Z1), Pt2::Aff {{ x: X2, y: Y2 }})
+{{
+    {affm}
+    cv_ma1({allm1});
+    t2_zero(Z1); t2_inv(Z1);
+    cv_param(X1, Y1, Z1, zi1, x1, y1);
+    let dxq = q_sub(X2, x1); let dyq = q_sub(Y2, y1);
+    ma2_chain({allm2}, {q(dxq*zq)}, {q(dyq*wq)}, {R(parm["X1p"], **rnm)}, {R(parm["Y1p"], **rnm)}, Z1);
+    qr_ma_z(dxq, Z1);
+    qr_ma_x(x1, X2, dyq, Z1);
+    qr_ma_y(x1, y1, dxq, dyq, {R(CH["x3n"], x2="X2", y2="Y2")}, Z1);
+    cv_chord(x1, y1, X2, Y2, wq, x3, y3, z3);
+}}
+""")
+    # ---------------------------------------------------------------- point_equals
+    PE = PROGS["eq"]
+    sge = ", ".join("%s: F2" % v for v in PE["inputs"] + PE["vals"]); alle = ", ".join(PE["inputs"] + PE["vals"])
+    lemma(f"""
+// TwistPoint::point_equals, both operands finite: each comparison of cross products compares one affine coordinate
+proof fn cv_eq({sge})
+    requires m2_ok(X1), m2_ok(Y1), m2_ok(Z1), m2_ok(X2), m2_ok(Y2), m2_ok(Z2), Z1 != m2_zero(), Z2 != m2_zero(), eq_rel({alle})
+    ensures (t3 == t4) == (pt2_x(jac2(X1, Y1, Z1)) == pt2_x(jac2(X2, Y2, Z2))), (t3b == t4b) == (pt2_y(jac2(X1, Y1, Z1)) == pt2_y(jac2(X2, Y2, Z2)))
+{{
+    {aff}
+    t2_zero(Z1); t2_zero(Z2); t2_inv(Z1); t2_inv(Z2);
+    cv_param(X1, Y1, Z1, zi1, x1, y1); cv_param(X2, Y2, Z2, zi2, x2, y2);
+    eq_chain({alle}, {R(par2["X1p"], **rn2)}, {R(par2["Y1p"], **rn2)}, Z1, {R(par2["X2p"], **rn2)}, {R(par2["Y2p"], **rn2)}, Z2);
+    qr_af_u1(x1, Z1, Z2); qr_af_u2(x2, Z1, Z2); qr_eq_s1(y1, Z1, Z2); qr_eq_s2(y2, Z1, Z2);
+    t2_nz_mul(Z1, Z2); t2_nz_mul(t, t); t2_nz_mul(tq, t);
+    cv_scaled_eq(x1, x2, tq, t3, t4); cv_scaled_eq(y1, y2, wq, t3b, t4b);
+}}
+""")
+
 def main():
     build()
     text = "\n".join(OUT) + "\n"
